@@ -113,7 +113,7 @@ func c20Gen(r *Rand, tier string) interface{} {
 		in.EmptyDirs = append(in.EmptyDirs, "empty/dir/")
 	}
 	for k, n := 0, r.Intn(4); k < n; k++ {
-		in.LatencyMS = append(in.LatencyMS, r.Pick(0, 1, 3, 10))
+		in.LatencyMS = append(in.LatencyMS, r.Pick(0, 1, 3, 10, 10, 300, 400)) // also far slower than any idle threshold in the loader (simulated time is free; well inside the loop's 2-minute lifetime)
 	}
 	if r.Chance(1, 6) {
 		in.FailAt = r.Intn(2 + 2*nf)
